@@ -57,8 +57,14 @@ def run : Runner
     pure { model, prop }
   | "rt", [_, a], impl => do
     let a ← int? a
-    let model := amtTok (Amount.NewAmount (Amount.ToBCH a))
-    let prop := if a.natAbs ≤ 2100000000000000 then (if impl == s!"ok:{a}" then "ok" else "violated:ToBCH/NewAmount round trip") else "-"
+    let model := s!"{amtTok (Amount.NewAmount (Amount.ToBCH a))} {(Amount.ToBCH a).toNat}"
+    -- the round trip, and ToBCH itself is the correctly rounded quotient a / 10^8
+    let want := F64.roundRat a (10 ^ 8)
+    let prop := if a.natAbs ≤ 2100000000000000 then
+        (match impl.splitOn " " with
+         | [rt, bits] => if rt != s!"ok:{a}" then "violated:ToBCH/NewAmount round trip"
+                         else if bits != toString want.toNat && a != 0 then "violated:ToBCH is not the correctly rounded quotient" else "ok"
+         | _ => "violated:shape") else "-"
     pure { model, prop }
   | "tounit", [_, a, u], impl => do
     let a ← int? a; let u ← int? u
